@@ -79,7 +79,7 @@ pub fn random_cfg(r: &mut R, heavy: bool) -> Cfg {
         _ => *pick(r, &[0u32, 0, 3, 1000]),
     };
     let block_size = *pick(r, &[0usize, 1, 1024, 1024, 1024, 1025, 1500, 2000, 4096, 8192, 65536]);
-    let interval = *pick(r, &[1usize, 1, 2, 3, 8, 8, 1000]);
+    let interval = *pick(r, &[1usize, 1, 2, 3, 8, 8, 9, 16, 1000]);
     let levels = if heavy {
         *pick(r, &[0u8, 0, 1, 1, 2, 2, 2, 3, 3, 4, 7, 254, 255])
     } else {
